@@ -79,89 +79,7 @@ func checkC08(p *Program, r *Report) {
 	r.Note("%d entry points, %d in-repo functions in scope", len(roots), len(scope))
 	r.extra["functions_in_scope"] = len(scope)
 
-	av := NewAvail(p)
-	rf := newRetFacts(p, av)
-	c08ctx.p, c08ctx.av, c08ctx.rf = p, av, rf
-	kinds := map[string]int{}
-	hows := map[string]int{}
-	for _, fn := range scope {
-		lc := NewLinCtx(p, fn)
-		lc.alias = av.Run(fn)
-		rf.install(lc)
-		lc.entry = paramEntryFacts(p, fn, lc)
-		pr := NewProver(p, fn, lc)
-		pr.trace = os.Getenv("BCHVERIF_TRACE") != "" && strings.Contains(FnName(fn), os.Getenv("BCHVERIF_TRACE"))
-		closureAxioms := sortClosureAxioms(p, fn, lc)
-		obs := enumerateC08(p, fn, lc)
-		for _, ob := range obs {
-			kinds[ob.kind]++
-			rule := "C08.bounds"
-			switch ob.kind {
-			case "assert":
-				rule = "C08.assert"
-			case "panic":
-				rule = "C08.bounds"
-			case "external":
-				rule = "C08.external"
-			}
-			if ob.kind == "assert" {
-				ok, how := assertDominated(ob.in.(*ssa.TypeAssert))
-				r.Add(rule, FnName(fn), ob.construct, p.InstrPos(ob.in), ok, how)
-				continue
-			}
-			if ob.kind == "panic" {
-				r.Add(rule, FnName(fn), ob.construct, p.InstrPos(ob.in), false, "explicit panic reachable from an untrusted-input entry point")
-				continue
-			}
-			okAll := true
-			var how []string
-			for gi, g := range ob.goals {
-				extra := closureAxioms
-				ok, h := pr.ProveWith(ob.in.Block(), extra, g)
-				if ok && h == "" {
-					h = "facts"
-				}
-				if !ok {
-					okAll = false
-					how = append(how, "cannot prove "+ob.goalDesc[gi]+" ["+lc.Format(g)+" ≤ 0]")
-				} else {
-					hows[h]++
-					how = append(how, h)
-				}
-			}
-			if okAll {
-				r.Add(rule, FnName(fn), ob.construct, p.InstrPos(ob.in), true, strings.Join(dedupStrings(how), ","))
-				continue
-			}
-			// a precondition of an unexported helper: provable at every call site?
-			if lok, ldesc := liftToCallSites(pr, ob.in, ob.goals, func(g *ssa.Function, glc *LinCtx) []Lin { return blockCacheFacts(p, g, glc) }); lok {
-				hows["call-site precondition"]++
-				r.Add(rule, FnName(fn), ob.construct, p.InstrPos(ob.in), true, ldesc)
-				continue
-			} else if ldesc != "" {
-				how = append(how, ldesc)
-			}
-			// exception table
-			if ex := findC08Exception(FnName(fn), ob.construct); ex != nil {
-				pok, pdesc := true, ""
-				if ex.premise != nil {
-					pok, pdesc = ex.premise(pr, ob.in)
-				}
-				if pok {
-					o := r.Except(rule, FnName(fn), ob.construct, p.InstrPos(ob.in), ex.reason)
-					if pdesc != "" {
-						o.How += "; checked premise: " + pdesc
-					}
-					continue
-				}
-				how = append(how, "exception premise failed: "+pdesc)
-			}
-			r.Add(rule, FnName(fn), ob.construct, p.InstrPos(ob.in), false, strings.Join(how, "; "))
-		}
-		c08Alloc(p, r, fn, lc, pr)
-		c08Loops(p, r, fn, lc, av)
-		c08NilResults(p, r, fn)
-	}
+	kinds, hows := c08Scope(p, r, scope, "")
 	c08Recursion(p, r, scope)
 	r.extra["obligation_kinds"] = kinds
 	r.extra["discharge_methods"] = hows
@@ -1632,4 +1550,100 @@ func c08NilResults(p *Program, r *Report, fn *ssa.Function) {
 			r.Add("C08.nil", FnName(fn), cname, c.Pos(), len(bad) == 0, how)
 		}
 	}
+}
+
+// c08Scope runs the panic-freedom obligations (index, slice, division, shift, fixed-width read, type assertion,
+// preconditioned external call) over the given functions.  With as == "" this is C08 proper (its own rule names, plus
+// allocation, loop and nil-result rules); another property passes its own rule name to file the same obligations for
+// its functions (C07: a decoder that panics on a short string is not "rejecting" it).
+func c08Scope(p *Program, r *Report, scope []*ssa.Function, as string) (map[string]int, map[string]int) {
+	av := NewAvail(p)
+	rf := newRetFacts(p, av)
+	c08ctx.p, c08ctx.av, c08ctx.rf = p, av, rf
+	kinds := map[string]int{}
+	hows := map[string]int{}
+	for _, fn := range scope {
+		lc := NewLinCtx(p, fn)
+		lc.alias = av.Run(fn)
+		rf.install(lc)
+		lc.entry = paramEntryFacts(p, fn, lc)
+		pr := NewProver(p, fn, lc)
+		pr.trace = os.Getenv("BCHVERIF_TRACE") != "" && strings.Contains(FnName(fn), os.Getenv("BCHVERIF_TRACE"))
+		closureAxioms := sortClosureAxioms(p, fn, lc)
+		obs := enumerateC08(p, fn, lc)
+		for _, ob := range obs {
+			kinds[ob.kind]++
+			rule := "C08.bounds"
+			switch ob.kind {
+			case "assert":
+				rule = "C08.assert"
+			case "panic":
+				rule = "C08.bounds"
+			case "external":
+				rule = "C08.external"
+			}
+			if as != "" {
+				rule = as
+			}
+			if ob.kind == "assert" {
+				ok, how := assertDominated(ob.in.(*ssa.TypeAssert))
+				r.Add(rule, FnName(fn), ob.construct, p.InstrPos(ob.in), ok, how)
+				continue
+			}
+			if ob.kind == "panic" {
+				r.Add(rule, FnName(fn), ob.construct, p.InstrPos(ob.in), false, "explicit panic reachable from an untrusted-input entry point")
+				continue
+			}
+			okAll := true
+			var how []string
+			for gi, g := range ob.goals {
+				extra := closureAxioms
+				ok, h := pr.ProveWith(ob.in.Block(), extra, g)
+				if ok && h == "" {
+					h = "facts"
+				}
+				if !ok {
+					okAll = false
+					how = append(how, "cannot prove "+ob.goalDesc[gi]+" ["+lc.Format(g)+" ≤ 0]")
+				} else {
+					hows[h]++
+					how = append(how, h)
+				}
+			}
+			if okAll {
+				r.Add(rule, FnName(fn), ob.construct, p.InstrPos(ob.in), true, strings.Join(dedupStrings(how), ","))
+				continue
+			}
+			// a precondition of an unexported helper: provable at every call site?
+			if lok, ldesc := liftToCallSites(pr, ob.in, ob.goals, func(g *ssa.Function, glc *LinCtx) []Lin { return blockCacheFacts(p, g, glc) }); lok {
+				hows["call-site precondition"]++
+				r.Add(rule, FnName(fn), ob.construct, p.InstrPos(ob.in), true, ldesc)
+				continue
+			} else if ldesc != "" {
+				how = append(how, ldesc)
+			}
+			// exception table
+			if ex := findC08Exception(FnName(fn), ob.construct); ex != nil {
+				pok, pdesc := true, ""
+				if ex.premise != nil {
+					pok, pdesc = ex.premise(pr, ob.in)
+				}
+				if pok {
+					o := r.Except(rule, FnName(fn), ob.construct, p.InstrPos(ob.in), ex.reason)
+					if pdesc != "" {
+						o.How += "; checked premise: " + pdesc
+					}
+					continue
+				}
+				how = append(how, "exception premise failed: "+pdesc)
+			}
+			r.Add(rule, FnName(fn), ob.construct, p.InstrPos(ob.in), false, strings.Join(how, "; "))
+		}
+		if as == "" {
+			c08Alloc(p, r, fn, lc, pr)
+			c08Loops(p, r, fn, lc, av)
+			c08NilResults(p, r, fn)
+		}
+	}
+	return kinds, hows
 }
